@@ -1,5 +1,741 @@
-"""Native replays for the parsers (C16, C17, C14): runs the real package on mutated / generated texts."""
+"""Native replays for the parsers (property C16): runs the REAL package on generated / mutated rule texts and FLL documents.
+
+Entry points (all `(fl, FA, vals=None, seed=0, budget=200, skip_classes=(), only_class=None, **kw) -> dict`):
+  replay_rule_text       exhaustive short token sequences + rule skeletons + grammar-generated rules with one injected error (tiny engine)
+  replay_rule_mutations  every shipped example: each rule text mutated at every token position (optionally pairs of mutations)
+  replay_fll_mutations   FLL documents (shipped examples + three hand-written ones) mutated at line / token level
+
+The oracle is `_Ref`, a recogniser of the documented rule grammar (RULE_GRAMMAR_DOC) written from the docstrings of
+fuzzylite.rule.Rule / Antecedent / Consequent and fuzzylite.hedge.Any.  It never calls Rule.parse, Rule.load, Antecedent.load,
+Consequent.load, Function.infix_to_postfix or the importer; it only reads the names of the variables and terms of the engine.
+Other parts of the package used to exercise accepted results: FllExporter, Rule.activate_with / trigger, Engine.is_ready / process.
+
+Failure classes: `internal-error:<Type>`, `loaded-after-failure`, `accepted-malformed:<kind>`, `accepted-not-evaluable`,
+`accepted-not-processable`, `accepted-not-exportable`, `rule-not-loaded`, `doubtful:<Type>` (FLL only).  An entry of `skip_classes`
+(and `only_class`) matches a class exactly or as the prefix before a ':' (so "accepted-malformed" skips every kind).
+"""
+import glob
+import hashlib
+import itertools
+import math
+import os
+import random
+import re
+
+RULE_GRAMMAR_DOC = """
+Reference rule grammar (tokens are separated by white space; in the antecedent `(` and `)` are tokens even when glued to a name;
+everything from a `#` on is a comment):
+
+    rule        ::= "if" antecedent "then" consequent [ "with" number ]          -- nothing may follow
+    antecedent  ::= operand { ("and" | "or") operand }
+    operand     ::= "(" antecedent ")" | proposition
+    proposition ::= variable "is" { hedge } term        -- variable: an input or output variable of the engine, term: a term of THAT variable
+                  | variable "is" { hedge } "any"       -- antecedent only: the hedge `any` needs no term
+    consequent  ::= conclusion { "and" conclusion }     -- no parentheses, no "or"
+    conclusion  ::= outputvariable "is" { hedge } term  -- term: a term of that output variable
+    hedge       ::= "any" | "extremely" | "not" | "seldom" | "somewhat" | "very"
+    number      ::= [+-] (digits ["." [digits]] | "." digits) [ (e|E) [+-] digits ]  |  [+-] ("inf" | "infinity" | "nan")
+
+`if`, `then`, `with` are reserved: the antecedent is what lies between the leading `if` and the first `then`, the consequent what lies
+between that `then` and the first following `with`.  Kinds reported for texts outside the grammar: keyword-if, keyword-then,
+missing-antecedent, missing-consequent, missing-operand, missing-operator, missing-is, missing-term, unknown-variable, unknown-term,
+not-output-variable, paren, bad-connective, weight-missing, weight-non-numeric, trailing-token.
+"""
+__doc__ += RULE_GRAMMAR_DOC
+
+HEDGES = ("any", "extremely", "not", "seldom", "somewhat", "very")
+KEYWORDS = ("if", "then", "with", "is", "and", "or")
+ALLOWED = (SyntaxError, ValueError, KeyError)
+INTERNAL = (TypeError, AttributeError, IndexError, RecursionError, UnboundLocalError, ZeroDivisionError)
+DOUBTFUL = (RuntimeError, AssertionError, NotImplementedError, OverflowError)
+_NUM = re.compile(r"[+-]?(?:(?:\d+\.?\d*|\.\d+)(?:[eE][+-]?\d+)?|inf|infinity|nan)$", re.I)
+_STRUCT = ("(", ")", "and", "or", "is", "if", "then", "with")
 
 
-def replay_rule_text(fl, FA, vals=None, **kw):
-    return {"failed": False, "cases": 1, "skipped": "todo"}
+class _Ref:
+    """independent recogniser of RULE_GRAMMAR_DOC against the names of one engine; `rule(text)` -> "" (in the grammar) or a kind"""
+
+    def __init__(self, engine):
+        self.vars, self.outs = {}, {}
+        for v in engine.input_variables:
+            self.vars.setdefault(v.name, set()).update(t.name for t in v.terms)
+        for v in engine.output_variables:
+            self.vars.setdefault(v.name, set()).update(t.name for t in v.terms)
+            self.outs.setdefault(v.name, set()).update(t.name for t in v.terms)
+
+    def rule(self, text):
+        toks = text.split("#")[0].split()
+        if not toks or toks[0] != "if":
+            return "rule/keyword-if"
+        if "then" not in toks:
+            return "rule/keyword-then"
+        i = toks.index("then")
+        ante, rest, w = toks[1:i], toks[i + 1:], None
+        if "with" in rest:
+            j = rest.index("with")
+            rest, w = rest[:j], rest[j + 1:]
+        kind = self.antecedent(ante)
+        if kind:
+            return ("antecedent-arrangement/" if self._ingredients(ante) else "antecedent/") + kind
+        kind = self.consequent(rest)
+        if kind:
+            return "consequent/" + kind
+        if w is None:
+            return ""
+        if not w:
+            return "rule/weight-missing"
+        if not _NUM.match(w[0]):
+            return "rule/weight-non-numeric"
+        return "rule/trailing-token" if len(w) > 1 else ""
+
+    def _ingredients(self, toks):
+        """the antecedent has the right ingredients in a wrong arrangement: without `and`/`or`/parentheses it is a sequence of k valid
+        propositions, there are k-1 operators and the parentheses nest properly"""
+        t = re.findall(r"[()]|[^\s()]+", " ".join(toks))
+        depth = 0
+        for x in t:
+            depth += (x == "(") - (x == ")")
+            if depth < 0:
+                return False
+        rest, i, k = [x for x in t if x not in ("(", ")", "and", "or")], 0, 0
+        while i < len(rest):
+            i, kind = self._prop(rest, i, self.vars, True)
+            if kind:
+                return False
+            k += 1
+        return depth == 0 and k >= 1 and sum(x in ("and", "or") for x in t) == k - 1
+
+    def antecedent(self, toks):
+        t = re.findall(r"[()]|[^\s()]+", " ".join(toks))
+        if not t:
+            return "missing-antecedent"
+        i, kind = self._expr(t, 0)
+        if kind or i == len(t):
+            return kind
+        return "paren" if t[i] in "()" else "missing-operator"
+
+    def _expr(self, t, i):
+        i, kind = self._operand(t, i)
+        while not kind and i < len(t) and t[i] in ("and", "or"):
+            i, kind = self._operand(t, i + 1)
+        return i, kind
+
+    def _operand(self, t, i):
+        if i < len(t) and t[i] == "(":
+            i, kind = self._expr(t, i + 1)
+            if kind:
+                return i, kind
+            if i < len(t) and t[i] == ")":
+                return i + 1, ""
+            return i, "paren" if i == len(t) else "missing-operator"
+        return self._prop(t, i, self.vars, True)
+
+    def _prop(self, t, i, variables, any_ok):
+        if i >= len(t) or t[i] in _STRUCT:
+            return i, "paren" if i < len(t) and t[i] == ")" else "missing-operand"
+        v = t[i]
+        if v not in variables:
+            return i, "not-output-variable" if v in self.vars else "unknown-variable"
+        if i + 1 >= len(t) or t[i + 1] != "is":
+            return i, "missing-is"
+        i, last = i + 2, None
+        while i < len(t) and t[i] in HEDGES and t[i] not in variables[v]:
+            last, i = t[i], i + 1
+        if i < len(t) and t[i] in variables[v]:
+            return i + 1, ""
+        if any_ok and last == "any":
+            return i, ""
+        return i, "missing-term" if i >= len(t) or t[i] in _STRUCT else "unknown-term"
+
+    def consequent(self, t):
+        if not t:
+            return "missing-consequent"
+        i = 0
+        while True:
+            i, kind = self._prop(t, i, self.outs, False)
+            if kind or i == len(t):
+                return kind
+            if t[i] != "and":
+                return "paren" if t[i] in "()" else "bad-connective"
+            i += 1
+
+
+# ------------------------------------------------------------------------------------------------------------------ bookkeeping
+def _match(cls, names):
+    return any(cls == s or cls.startswith(s + ":") for s in names if s)
+
+
+def _where(ex):
+    """innermost frame of the traceback that lies inside the fuzzylite package: 'file.py:function'"""
+    tb, found = ex.__traceback__, "?"
+    while tb is not None:
+        code = tb.tb_frame.f_code
+        if os.sep + "fuzzylite" + os.sep in code.co_filename:
+            found = f"{os.path.basename(code.co_filename)}:{code.co_name}"
+        tb = tb.tb_next
+    return found
+
+
+def _exc(ex):
+    return f"{type(ex).__name__}: {str(ex)[:200]} (raised in {_where(ex)})"
+
+
+class _Run:
+    def __init__(self, skip_classes=(), only_class=None):
+        self.skip, self.only = tuple(skip_classes or ()), only_class
+        self.cases, self.seen, self.skipped, self.accepted, self.rejected = 0, set(), {}, 0, {}
+        self.rv, self.rv_examples, self.ops = 0, [], {}
+
+    def report(self, cls, expected, observed, call):
+        if _match(cls, self.skip) or (self.only and not _match(cls, (self.only,))):
+            self.skipped[cls] = self.skipped.get(cls, 0) + 1
+            return None
+        return {"failed": True, "class": cls, "expected": expected[:600], "observed": observed[:600], "call": call[:600], "cases": self.cases}
+
+    def reject(self, ex):
+        key = f"{type(ex).__name__}@{_where(ex)}"
+        self.rejected[key] = self.rejected.get(key, 0) + 1
+
+    def result(self, **extra):
+        r = {"failed": False, "cases": self.cases, "distinct": len(self.seen), "accepted": self.accepted, "rejected": dict(sorted(self.rejected.items())),
+             "rejected_valid": self.rv, "rejected_valid_examples": self.rv_examples}
+        if self.skipped:
+            r["skipped"] = dict(sorted(self.skipped.items()))
+        if self.ops:
+            r["operators"] = dict(sorted(self.ops.items()))
+        r.update(extra)
+        return r
+
+
+def _mid(v):
+    lo, hi = float(v.minimum), float(v.maximum)
+    m = 0.5 * (lo + hi)
+    return m if math.isfinite(m) else 0.5
+
+
+# ------------------------------------------------------------------------------------------------------------------ rule contract
+PATHS = ("create", "parse+load", "reload")
+
+
+def _attempt(fl, eng, text, path, valid):
+    """-> (rule or None, exception or None, the failure (if any) happened while loading rather than while parsing)"""
+    rule, loading = None, False
+    try:
+        if path == "create":
+            return fl.Rule.create(text, eng), None, True
+        rule = fl.Rule() if path == "parse+load" else fl.Rule.create(valid, eng)
+        rule.parse(text)
+        loading = True
+        rule.load(eng)
+        return rule, None, True
+    except (KeyboardInterrupt, SystemExit):
+        raise
+    except BaseException as ex:  # noqa
+        if path == "create":       # the rule object under construction: local `rule` of Rule.create
+            tb = ex.__traceback__
+            while tb is not None:
+                if tb.tb_frame.f_code.co_name == "create" and "rule" in tb.tb_frame.f_locals:
+                    rule, loading = tb.tb_frame.f_locals["rule"], True
+                tb = tb.tb_next
+        return rule, ex, loading or path != "reload"
+
+
+def _snip(path, text, valid):
+    if path == "create":
+        return f"fl.Rule.create({text!r}, e)"
+    first = "r = fl.Rule()" if path == "parse+load" else f"r = fl.Rule.create({valid!r}, e)"
+    return f"{first}; r.parse({text!r}); r.load(e)"
+
+
+def _judge_rule(fl, run, eng, ref, text, path, valid, setup):
+    """contract (a)-(d) for one text through one load path; -> failure dict or None"""
+    rule, ex, loading = _attempt(fl, eng, text, path, valid)
+    call = f"import fuzzylite as fl; {setup}; {_snip(path, text, valid)}"
+    if ex is not None:
+        if not isinstance(ex, ALLOWED):
+            return run.report(f"internal-error:{type(ex).__name__}", "the rule is loaded, or SyntaxError / ValueError / KeyError", _exc(ex), call)
+        if path == "create":
+            run.reject(ex)
+            if not ref.rule(text):
+                run.rv += 1
+                if len(run.rv_examples) < 3:
+                    run.rv_examples.append(f"{text!r}: {type(ex).__name__}: {str(ex)[:80]}")
+        if rule is not None and loading and rule.is_loaded():
+            return run.report("loaded-after-failure", "rule.is_loaded() is False after the load failed", f"is_loaded() == True after {_exc(ex)}", call + "; r.is_loaded()")
+        return None
+    kind = ref.rule(text)
+    if kind:
+        return run.report(f"accepted-malformed:{kind.split('/')[0]}", f"rejected (SyntaxError/ValueError/KeyError): the text is outside the rule grammar [{kind}]",
+                          f"accepted; antecedent={rule.antecedent.text!r} consequent={rule.consequent.text!r} weight={rule.weight!r}", call)
+    if path == "create":
+        run.accepted += 1
+    try:
+        str(rule), rule.text, fl.FllExporter().rule(rule)
+        rule.activate_with(fl.Minimum(), fl.Maximum())
+        rule.trigger(fl.Minimum())
+    except Exception as e2:  # noqa
+        return run.report("accepted-not-evaluable", "an accepted rule can be exported, activated and triggered", _exc(e2),
+                          call + "; str(r); r.text; fl.FllExporter().rule(r); r.activate_with(fl.Minimum(), fl.Maximum()); r.trigger(fl.Minimum())")
+    finally:
+        for ov in eng.output_variables:
+            ov.fuzzy.clear()
+    return None
+
+
+def _drive(fl, run, eng, ref, texts, valid, setup, every=1):
+    """the create path on every text; the two-step and the reload path on every accepted text and on every `every`-th other text"""
+    for n, text in enumerate(texts):
+        if text in run.seen:
+            continue
+        run.seen.add(text)
+        before = run.accepted
+        for path in PATHS:
+            if path != "create" and n % every and run.accepted == before:
+                continue
+            run.cases += 1
+            f = _judge_rule(fl, run, eng, ref, text, path, valid, setup)
+            if f:
+                return f
+    return None
+
+
+# ------------------------------------------------------------------------------------------------------------------ mutation operators
+def _mutants(toks, pools):
+    """single mutations of a token list at EVERY position: (operator, tokens)"""
+    n = len(toks)
+    for i in range(n):
+        yield "delete", toks[:i] + toks[i + 1:]
+        yield "duplicate", toks[:i + 1] + toks[i:]
+        yield "truncate", toks[:i]
+        for kind, subs in pools:
+            for s in subs:
+                if s != toks[i]:
+                    yield "subst-" + kind, toks[:i] + [s] + toks[i + 1:]
+        for s in ("(", ")"):
+            yield "insert-paren", toks[:i] + [s] + toks[i:]
+        if i + 1 < n and toks[i] != toks[i + 1]:
+            yield "swap", toks[:i] + [toks[i + 1], toks[i]] + toks[i + 2:]
+        rest = toks[:i] + toks[i + 1:]
+        for j in {0, i - 2, i + 2, n - 1} - {i}:
+            if 0 <= j < n:
+                yield "move", rest[:j] + [toks[i]] + rest[j:]
+    for s in (")", "zzz", "0.5", "and", "with", toks[-1] if toks else "x"):
+        yield "trailing", toks + [s]
+
+
+def _pools(names):
+    return (("keyword", KEYWORDS + ("very", "any")), ("name", tuple(names)), ("unknown", ("zzz", "sin")), ("number", ("0.5",)), ("paren", ("(", ")")))
+
+
+def _by_operator(rules, pools):
+    by = {}
+    for r in rules:
+        for op, m in _mutants(r.split(), pools):
+            by.setdefault(op, []).append(" ".join(m))
+    return by
+
+
+# ------------------------------------------------------------------------------------------------------------------ 1. short texts
+SIGMA = "if then with is and or a b o p e t s u w very not any ( ) 1.0 0.5 abc x".split()
+RED_A = "is and or a b o t s very any ( )".split()
+RED_C = "is and or o p a u w very any ( with".split()
+CHUNK_A = ["a is t", "o is w", "a is any", "a is not s", "and", "or", "(", ")", "b is t", "e is any", "a", "is", "t"]
+CHUNK_C = ["o is u", "p is u", "o is very w", "a is t", "and", "or", "with 0.5", "(", ")", "o is any", "o", "is", "u"]
+WEIGHTS = ["", "abc", "1.0 1.0", "1.0 x", "0.5 with 0.5", "-1", "1e3", ".5", "1.", "nan", "inf", "0x10", "1,0", "one", "1.0.0", "--1", "1e", "( 1.0 )", "0.5 and", "is"]
+TINY = ("T = lambda n: fl.Triangle(n, 0.0, 0.5, 1.0); IV, OV = fl.InputVariable, fl.OutputVariable; "
+        "e = fl.Engine('tiny', '', [IV('a', terms=[T('t'), T('s')]), IV('b', terms=[T('t')]), IV('e')], [OV('o', terms=[T('u'), T('w')]), OV('p', terms=[T('u')])])")
+
+
+def _tiny(fl):
+    def T(n):
+        return fl.Triangle(n, 0.0, 0.5, 1.0)
+    eng = fl.Engine("tiny", "", [fl.InputVariable("a", terms=[T("t"), T("s")]), fl.InputVariable("b", terms=[T("t")]), fl.InputVariable("e")],
+                    [fl.OutputVariable("o", terms=[T("u"), T("w")]), fl.OutputVariable("p", terms=[T("u")])])
+    for v, x in zip(eng.input_variables, (0.3, 0.6, 0.5)):
+        v.value = x
+    return eng
+
+
+def _seqs(full, reduced, chunks, top):
+    """all sequences over `full` shorter than `top`, over `reduced` of length `top`; of fewer than `top` chunks, and of `top` of the first 8 chunks"""
+    for n in range(top):
+        for s in itertools.product(full, repeat=n):
+            yield " ".join(s)
+    for s in itertools.product(reduced, repeat=top):
+        yield " ".join(s)
+    for n in range(2, top):
+        for s in itertools.product(chunks, repeat=n):
+            yield " ".join(s)
+    for s in itertools.product(chunks[:8], repeat=top):
+        yield " ".join(s)
+
+
+def _skeletons():
+    seg = ["if", "a is t", "then", "o is u", "with", "0.5"]
+    for n in range(len(seg) + 1):                       # missing / reordered parts
+        for s in itertools.permutations(seg, n):
+            yield " ".join(s)
+    for i in range(len(seg) + 1):                       # duplicated parts, trailing tokens
+        for extra in seg + ["x", "1.0", ")", "and o is w", "and"]:
+            yield " ".join(seg[:i] + [extra] + seg[i:])
+    for w in WEIGHTS:
+        yield f"if a is t then o is u with {w}"
+        yield f"if a is t then o is u and p is u with {w}"
+    for t in ["", " ", "#", "if", "# if a is t then o is u", "if a is t then o is u # x", "if a is t # then o is u", "if a is t then o is u with # 1.0",
+              "if a is t then o is u with 0.5 # 1.0", "IF a is t THEN o is u", "if a IS t then o is u", "if (a is t) then o is u", "if (a is t then o is u",
+              "if a is t) then o is u", "if ((a is t) and (b is t)) or o is u then o is u", "if(a is t)then o is u", "if a is t then (o is u)", "if a is t then o is u and (p is u)"]:
+        yield t
+
+
+def _gen_valid(rng):
+    """a random rule of the grammar over the tiny engine (with parentheses, hedges, `any`, several conclusions, weight)"""
+    props = {"a": "ts", "b": "t", "o": "uw", "p": "u"}
+
+    def prop(variables, any_ok):
+        v = rng.choice(variables)
+        h = [rng.choice(HEDGES[1:]) for _ in range(rng.choice((0, 0, 1, 2)))]
+        if any_ok and rng.random() < 0.15:
+            return [v, "is"] + h + ["any"]
+        return [v, "is"] + h + [rng.choice(props[v])]
+
+    def expr(depth):
+        if depth == 0 or rng.random() < 0.4:
+            return prop("aabo", True)
+        e = expr(depth - 1) + [rng.choice(("and", "or"))] + expr(depth - 1)
+        return ["("] + e + [")"] if rng.random() < 0.5 else e
+
+    cons = prop("op", False)
+    for _ in range(rng.choice((0, 0, 1, 2))):
+        cons += ["and"] + prop("op", False)
+    return " ".join(["if"] + expr(rng.choice((0, 1, 1, 2))) + ["then"] + cons + (["with", rng.choice(("0.5", "1.0", "0.25"))] if rng.random() < 0.4 else []))
+
+
+def replay_rule_text(fl, FA, vals=None, seed=0, budget=200, which=None, max_len=None, skip_classes=(), only_class=None, **kw):
+    """contract (a)-(d) on short token sequences `if <A> then <C> [with <W>]` over a tiny engine (see module docstring)"""
+    rng = random.Random(seed)
+    run, eng = _Run(skip_classes, only_class), _tiny(fl)
+    ref = _Ref(eng)
+    top = max_len if max_len is not None else (3 if budget < 100 else 4 if budget < 2000 else 5)
+    valid = "if a is t then o is u"
+    for r in (valid, "if (a is very t or b is any) and o is not w then o is somewhat u and p is u with 0.5"):   # harness sanity: the reference accepts them
+        assert ref.rule(r) == "", (r, ref.rule(r))
+    fams = [which] if which else ["antecedent", "consequent", "rule"]
+    for fam in fams:
+        if fam == "antecedent":
+            texts = (f"if {a} then o is u" for a in _seqs(SIGMA, RED_A, CHUNK_A, top))
+        elif fam == "consequent":
+            texts = (f"if a is t then {c}" for c in _seqs(SIGMA, RED_C, CHUNK_C, top))
+        else:
+            gen = [_gen_valid(rng) for _ in range(max(4, budget // 8))]
+            for g in gen:
+                assert ref.rule(g) == "", (g, ref.rule(g))
+            pools = _pools(["a", "b", "o", "p", "e", "t", "s", "u", "w"])
+            texts = itertools.chain(_skeletons(), gen, (" ".join(m) for g in gen for _, m in _mutants(g.split(), pools)))
+        f = _drive(fl, run, eng, ref, texts, valid, TINY, every=1 if fam == "rule" else 4)
+        if f:
+            return f
+    return run.result(max_len=top)
+
+
+# ------------------------------------------------------------------------------------------------------------------ 2. example rules
+def _examples(fl):
+    root = os.path.join(os.path.dirname(os.path.abspath(fl.__file__)), "examples")
+    return root, sorted(glob.glob(os.path.join(root, "**", "*.fll"), recursive=True))
+
+
+def _rule_lines(text):
+    return [ln.split(":", 1)[1].strip() for ln in text.splitlines() if ln.strip().startswith("rule:")]
+
+
+def _names(eng):
+    out = []
+    for vs in (eng.input_variables[:2], eng.output_variables[:2]):
+        for v in vs:
+            out.append(v.name)
+            out.extend(t.name for t in v.terms[:2])
+    return list(dict.fromkeys(out))
+
+
+def replay_rule_mutations(fl, FA, vals=None, seed=0, budget=200, double=False, skip_classes=(), only_class=None, examples=None, **kw):
+    """contract (a)-(d) on the rule texts of every shipped example mutated at every token position (sampled under the budget)"""
+    rng = random.Random(seed)
+    run = _Run(skip_classes, only_class)
+    root, files = _examples(fl)
+    files = [p for p in files if not examples or any(x in p for x in examples)]
+    per_example = max(40, budget * 300 // max(1, len(files)))
+    n_rules = max(3, budget // 20)
+    for path in files:
+        rel = os.path.relpath(path, root)
+        setup = f"import os; e = fl.FllImporter().from_file(os.path.join(os.path.dirname(fl.__file__), 'examples', {rel!r}))"
+        with open(path, encoding="utf-8") as fh:
+            doc = fh.read()
+        try:
+            eng = fl.FllImporter().from_string(doc)
+        except Exception as ex:  # noqa
+            f = run.report(f"crash:{type(ex).__name__}@FllImporter.from_string", "a shipped example is imported", _exc(ex), f"import fuzzylite as fl; {setup}")
+            if f:
+                return f
+            continue
+        for v in eng.input_variables:
+            v.value = _mid(v)
+        ref = _Ref(eng)
+        rules = list(dict.fromkeys(_rule_lines(doc)))
+        if not rules:
+            continue
+        # sanity of the harness + baseline of the property: the shipped rules are in the grammar and are accepted
+        bad = [r for r in rules if ref.rule(r)]
+        assert not bad, f"reference recogniser rejects a shipped rule of {rel}: {bad[0]!r} [{ref.rule(bad[0])}]"
+        valid = rules[0]
+        f = _drive(fl, run, eng, ref, rules, valid, setup)
+        if f:
+            return f
+        pick = [rules[0], max(rules, key=lambda r: len(r.split()))] + rng.sample(rules, min(len(rules), n_rules))
+        by = _by_operator(list(dict.fromkeys(pick)), _pools(_names(eng)))
+        quota = max(2, per_example // len(by))
+        chosen = []
+        for op in sorted(by):
+            ms = sorted(set(by[op]) - run.seen)
+            take = ms if len(ms) <= quota else rng.sample(ms, quota)
+            run.ops[op] = run.ops.get(op, 0) + len(take)
+            chosen.extend(take)
+        if double:
+            pools = _pools(_names(eng))
+            for m in rng.sample(chosen, min(len(chosen), per_example // 2)):
+                second = list(_mutants(m.split(), pools)) if m.split() else []
+                if second:
+                    op, mm = rng.choice(second)
+                    run.ops["double"] = run.ops.get("double", 0) + 1
+                    chosen.append(" ".join(mm))
+        f = _drive(fl, run, eng, ref, chosen, valid, setup)
+        if f:
+            return f
+    return run.result(examples=len(files))
+
+
+# ------------------------------------------------------------------------------------------------------------------ 3. FLL documents
+HAND_WRITTEN = ["""# hand-written: every key of every section
+Engine: hw_one
+  description: a small engine
+InputVariable: light
+  description: ambient light
+  enabled: true
+  range: 0.000 1.000
+  lock-range: false
+  term: dark Triangle 0.000 0.250 0.500
+  term: mid Trapezoid 0.200 0.400 0.600 0.800
+  term: bright Ramp 0.500 1.000
+InputVariable: hour
+  enabled: true
+  range: 0.000 24.000
+  lock-range: true
+  term: day Rectangle 6.000 18.000
+  term: night Discrete 0.000 1.000 6.000 0.000 18.000 0.000 24.000 1.000
+OutputVariable: power
+  description: lamp power
+  enabled: true
+  range: 0.000 1.000
+  lock-range: false
+  aggregation: Maximum
+  defuzzifier: Centroid 100
+  default: nan
+  lock-previous: false
+  term: low Triangle 0.000 0.250 0.500
+  term: high Gaussian 0.750 0.100
+RuleBlock: main
+  description: the rules
+  enabled: true
+  conjunction: Minimum
+  disjunction: Maximum
+  implication: AlgebraicProduct
+  activation: General
+  rule: if light is dark and hour is night then power is high
+  rule: if light is very bright or hour is day then power is low with 0.500
+  rule: if light is not mid and (hour is any or light is somewhat dark) then power is extremely high and power is seldom low
+""", """Engine: hw_two
+InputVariable: x
+  enabled: true
+  range: -1.000 1.000
+  lock-range: false
+  term: neg ZShape -1.000 0.000
+  term: pos SShape 0.000 1.000
+OutputVariable: y
+  enabled: true
+  range: -2.000 2.000
+  lock-range: false
+  aggregation: none
+  defuzzifier: WeightedAverage TakagiSugeno
+  default: 0.000
+  lock-previous: true
+  term: c Constant 0.500
+  term: l Linear 1.000 0.000
+  term: f Function x * 2.0 + sin(x)
+OutputVariable: z
+  enabled: false
+  range: 0.000 1.000
+  lock-range: true
+  aggregation: AlgebraicSum
+  defuzzifier: MeanOfMaximum 50
+  default: 0.500
+  lock-previous: false
+  term: s Sigmoid 0.500 10.000
+  term: b Bell 0.500 0.250 3.000
+RuleBlock: first
+  enabled: true
+  conjunction: AlgebraicProduct
+  disjunction: none
+  implication: none
+  activation: Highest 1
+  rule: if x is neg then y is c and z is s
+  rule: if x is pos then y is l
+RuleBlock: second
+  enabled: false
+  conjunction: none
+  disjunction: AlgebraicSum
+  implication: Minimum
+  activation: Threshold >= 0.250
+  rule: if x is neg or x is pos then y is f with 0.750
+  rule: if y is c then z is b
+""", """Engine: hw_three
+InputVariable: i
+OutputVariable: o
+RuleBlock:
+"""]
+SUBST = [":", "true", "false", "none", "nan", "0.5", "-1", "Triangle", "Discrete", "Function", "Minimum", "Maximum", "Centroid", "General", "zzz", "(", ")", "if", "then",
+         "is", "and", "with", "term:", "rule:", "Engine:", "RuleBlock:", "#", ","]
+BAD_NUM = ["abc", "1e", "--1", "0.2.5", "nan", "inf", "-inf", "1e999", "", "1,5", "0x1F"]
+BAD_BOOL = ["True", "yes", "1", "", "truefalse", "none"]
+BAD_RANGE = ["0.0", "0 1 2", "1.0 0.0", "a b", "", "nan nan", "-inf inf", "0.0 0.0", "0.0, 1.0"]
+CLASS_KEYS = {"term": 2, "conjunction": 1, "disjunction": 1, "implication": 1, "aggregation": 1, "defuzzifier": 1, "activation": 1}
+
+
+def _fll_mutants(lines, rng, k):
+    """(operator, description, document): every operator at `k` sampled positions (all positions when k is None)"""
+    n = len(lines)
+
+    def some(seq):
+        seq = list(seq)
+        return seq if k is None or len(seq) <= k else rng.sample(seq, k)
+
+    def doc(ls):
+        return "\n".join(ls) + "\n"
+
+    def line(op, i, new):
+        return op, f"line {i + 1} {lines[i]!r} -> {new!r}", doc(lines[:i] + [new] + lines[i + 1:])
+
+    def toks(op, i, t):
+        return line(op, i, lines[i][:len(lines[i]) - len(lines[i].lstrip())] + " ".join(t))
+
+    for i in some(range(n)):
+        yield "delete-line", f"line {i + 1} {lines[i]!r} deleted", doc(lines[:i] + lines[i + 1:])
+        yield "duplicate-line", f"line {i + 1} {lines[i]!r} duplicated", doc(lines[:i + 1] + lines[i:])
+        yield "truncate-line", f"only the first {i} lines", doc(lines[:i])
+        if i + 1 < n:
+            yield "swap-lines", f"lines {i + 1} {lines[i]!r} and {i + 2} swapped", doc(lines[:i] + [lines[i + 1], lines[i]] + lines[i + 2:])
+        j = rng.randrange(n)
+        rest = lines[:i] + lines[i + 1:]
+        yield "move-line", f"line {i + 1} {lines[i]!r} moved before line {j + 1 + (j >= i)}", doc(rest[:j] + [lines[i]] + rest[j:])
+        yield line("colon", i, lines[i].replace(":", "", 1))
+        yield line("colon", i, lines[i].replace(":", rng.choice(("::", " =", ";", " :")), 1))
+    spots = [(i, j) for i in range(n) for j in range(len(lines[i].split()))]
+    for i, j in some(spots):
+        t = lines[i].split()
+        yield "truncate-token", f"only the first {i} lines and the first {j} tokens of line {i + 1} {lines[i]!r}", doc(lines[:i] + [" ".join(t[:j])])
+        yield toks("delete-token", i, t[:j] + t[j + 1:])
+        yield toks("duplicate-token", i, t[:j + 1] + t[j:])
+        if j + 1 < len(t):
+            yield toks("swap-tokens", i, t[:j] + [t[j + 1], t[j]] + t[j + 2:])
+        for s in (SUBST if k is None else rng.sample(SUBST, 4)):
+            yield toks("subst-token", i, t[:j] + [s] + t[j + 1:])
+    keyed = [i for i in range(n) if ":" in lines[i]]
+    for i in some(keyed):
+        key, val = lines[i].split(":", 1)
+        for bad in (key + "x", key.strip().swapcase(), "", key.strip()[:-1], "term" if key.strip() != "term" else "rule", key + " " + key.strip()):
+            yield line("corrupt-key", i, f"{bad}:{val}")
+    for i in some([i for i in keyed if lines[i].split(":")[0].strip() in CLASS_KEYS]):
+        t = lines[i].split()
+        j = CLASS_KEYS[t[0].rstrip(":")]
+        if j < len(t):
+            for bad in (t[j][:-1], t[j].lower(), "Rectangle", "Triangle", "Discrete", "Function", "Linear", "Constant", "none", "", "Minimum", "Centroid", "First", "Threshold"):
+                yield toks("corrupt-class", i, t[:j] + [bad] + t[j + 1:])
+    for i, j in some([(i, j) for i, j in spots if _NUM.match(lines[i].split()[j])]):
+        t = lines[i].split()
+        for bad in BAD_NUM:
+            yield toks("corrupt-number", i, t[:j] + [bad] + t[j + 1:])
+    for i, j in some([(i, j) for i, j in spots if lines[i].split()[j] in ("true", "false")]):
+        t = lines[i].split()
+        for bad in BAD_BOOL:
+            yield toks("corrupt-boolean", i, t[:j] + [bad] + t[j + 1:])
+    for i in some([i for i in keyed if lines[i].split(":")[0].strip() == "range"]):
+        for bad in BAD_RANGE:
+            yield line("corrupt-range", i, lines[i].split(":")[0] + ": " + bad)
+
+
+def _judge_fll(fl, run, text, source, desc):
+    call = f"import fuzzylite as fl; fl.FllImporter().from_string({text!r})"
+    if len(call) > 560:
+        call = f"import fuzzylite as fl, os; doc = {source}; engine = fl.FllImporter().from_string(doc with {desc})"
+    try:
+        eng = fl.FllImporter().from_string(text)
+    except (KeyboardInterrupt, SystemExit):
+        raise
+    except BaseException as ex:  # noqa
+        if isinstance(ex, ALLOWED):
+            run.reject(ex)
+            return None
+        soft = isinstance(ex, DOUBTFUL) and not isinstance(ex, INTERNAL)
+        return run.report(f"{'doubtful' if soft else 'internal-error'}:{type(ex).__name__}", "an engine, or SyntaxError / ValueError / KeyError", _exc(ex), call)
+    run.accepted += 1
+    try:
+        fl.FllExporter().to_string(eng)
+    except Exception as ex:  # noqa
+        return run.report("accepted-not-exportable", "an imported engine can be exported again", _exc(ex), call + " then fl.FllExporter().to_string(engine)")
+    unloaded = [r.text for rb in eng.rule_blocks for r in rb.rules if not r.is_loaded()]
+    if unloaded:
+        return run.report("rule-not-loaded", "every rule of an imported engine is loaded (no load error was raised)", f"not loaded: {unloaded[:3]}", call)
+    try:
+        ready = bool(eng.is_ready())
+    except Exception:  # noqa
+        ready = False
+        run.skipped["is_ready-raised"] = run.skipped.get("is_ready-raised", 0) + 1
+    if ready:
+        try:
+            for v in eng.input_variables:
+                v.value = _mid(v)
+            eng.process()
+            [float(v.value) for v in eng.output_variables]
+        except Exception as ex:  # noqa
+            return run.report(f"accepted-not-processable:{type(ex).__name__}@{_where(ex)}", "an imported engine that is_ready() processes a row of mid-range inputs", _exc(ex),
+                              call + " then set every input to the middle of its range; engine.process()")
+    return None
+
+
+def replay_fll_mutations(fl, FA, vals=None, seed=0, budget=200, skip_classes=(), only_class=None, examples=None, **kw):
+    """import contract on FLL documents mutated at line and token level (see module docstring)"""
+    rng = random.Random(seed)
+    run = _Run(skip_classes, only_class)
+    root, files = _examples(fl)
+    docs = [(f"contracts.parsing_native.HAND_WRITTEN[{i}]", d, None) for i, d in enumerate(HAND_WRITTEN)]
+    for p in files:
+        with open(p, encoding="utf-8") as fh:
+            docs.append((f"open(os.path.join(os.path.dirname(fl.__file__), 'examples', {os.path.relpath(p, root)!r})).read()", fh.read(), max(1, budget // 100)))
+    docs = [d for d in docs if not examples or any(x in d[0] for x in examples)]
+    k_hand = None if budget >= 100 else 3
+    for name, text, k in docs:
+        run.cases += 1
+        f = _judge_fll(fl, run, text, name, "no change")       # the unmutated document
+        if f:
+            return f
+        lines = text.rstrip("\n").split("\n")
+        for op, desc, m in _fll_mutants(lines, rng, k if k is not None else k_hand):
+            h = hashlib.md5(m.encode()).digest()
+            if h in run.seen or m == text:
+                continue
+            run.seen.add(h)
+            run.cases += 1
+            run.ops[op] = run.ops.get(op, 0) + 1
+            f = _judge_fll(fl, run, m, name, desc)
+            if f:
+                return f
+    r = run.result(documents=len(docs))
+    r.pop("rejected_valid"), r.pop("rejected_valid_examples")
+    return r
